@@ -26,6 +26,8 @@ from pywbem import (CIMInstance, CIMInstanceName, CIMClass, CIMClassName, CIMPro
                     Uint8, Sint8, Uint16, Sint16, Uint32, Sint32, Uint64, Sint64, Real32, Real64,
                     CIMInt)
 from pywbem import _cim_xml
+from pywbem import _cim_obj
+from pywbem import _cim_operations as _ops
 from pywbem._tupleparse import TupleParser
 from pywbem._tupletree import xml_to_tupletree_sax
 
@@ -532,9 +534,24 @@ def short(v):
 VIOLS = {}
 
 
+class Lazy:
+    """a detail value that is only rendered when a violation is actually recorded"""
+    def __init__(self, fn):
+        self.fn = fn
+
+
+class KnownDefect(Exception):
+    """raised by a codec when the failure it met is one of the catalogued defects"""
+    def __init__(self, vid, what):
+        Exception.__init__(self, vid)
+        self.vid = vid
+        self.what = what
+
+
 def violation(vid, **detail):
     """buffered, so that R.violation (which keeps a bounded number of ids) sees unknown failures first"""
-    VIOLS.setdefault(vid, detail)
+    if vid not in VIOLS:
+        VIOLS[vid] = {k: (v.fn() if isinstance(v, Lazy) else v) for k, v in detail.items()}
 
 
 def flush():
@@ -636,6 +653,118 @@ def value_codec(t):
     return C
 
 
+# extrinsic method call: the request is built by WBEMConnection._methodcall (its own PARAMVALUE encoder, not
+# CIMParameter.tocimxml) and the output parameters of the response are typed by it; the HTTP layer is replaced
+# by an echo server that answers with the PARAMVALUE elements it is told to return
+REPLY = ('<?xml version="1.0" encoding="utf-8" ?>\n<CIM CIMVERSION="2.0" DTDVERSION="2.0"><MESSAGE ID="1001" '
+         'PROTOCOLVERSION="1.0"><SIMPLERSP><METHODRESPONSE NAME="M">%s</METHODRESPONSE></SIMPLERSP></MESSAGE></CIM>')
+NULL_PARAM_ID = 'known:InvokeMethod-array-parameter-with-NULL-entry-AttributeError'
+NULL_PARAM_WHAT = ("WBEMConnection.InvokeMethod() cannot send an array input parameter that has a NULL entry: "
+                   "conn.InvokeMethod('M', 'C', P=[pywbem.Uint8(1), None]) (equally Params=[CIMParameter('P', 'uint8', "
+                   "value=[1, None])]) raises AttributeError \"'NoneType' object has no attribute 'nodeType'\" while "
+                   "building the request, because paramvalue() in _methodcall() returns None for a None entry "
+                   "instead of a VALUE.NULL element (CIMParameter.tocimxml(as_value=True) encodes the same value "
+                   "correctly)")
+
+
+class Captured(Exception):
+    pass
+
+
+class EchoServer:
+    """stands in for pywbem._cim_operations.wbem_request; nothing is sent anywhere"""
+    def __init__(self):
+        self.conn = None
+        self.capture = False
+        self.request = None
+        self.reply_params = ''
+
+    def __call__(self, conn, req_data, cimxml_headers, *args, **kwargs):
+        self.request = req_data.decode('utf-8') if isinstance(req_data, bytes) else req_data
+        if self.capture:
+            raise Captured()
+        return (REPLY % self.reply_params).encode('utf-8'), 0
+
+    def invoke(self, capture, reply_params='', params=None, **kwparams):
+        if self.conn is None:
+            self.conn = pywbem.WBEMConnection('http://c01.invalid:5988', default_namespace='root/c01')
+        old = _ops.wbem_request
+        _ops.wbem_request = self
+        self.capture, self.reply_params, self.request = capture, reply_params, None
+        try:
+            return self.conn.InvokeMethod('M', 'C', params, **kwparams)
+        except Captured:
+            return None
+        finally:
+            _ops.wbem_request = old
+
+
+SERVER = EchoServer()
+
+
+class ParamHolder:
+    """name, type and value of one method parameter as the caller of InvokeMethod sees it"""
+    def __init__(self, name, t, value, embedded_object=None):
+        self.name = name
+        self.type = t
+        self.value = value
+        self.embedded_object = embedded_object
+
+
+def as_cimparameter(x):
+    if isinstance(x, CIMParameter):
+        return x
+    return CIMParameter(x.name, x.type, value=x.value, is_array=isinstance(x.value, list),
+                        embedded_object=x.embedded_object)
+
+
+def request_paramvalues(x, **invoke_args):
+    try:
+        SERVER.invoke(True, **invoke_args)
+    except AttributeError as e:
+        if "'NoneType' object has no attribute 'nodeType'" in str(e) and isinstance(x.value, list) and \
+                None in x.value and '_methodcall' in tb_functions(e) and tb_functions(e)[-1] == 'appendChild':
+            raise KnownDefect(NULL_PARAM_ID, NULL_PARAM_WHAT)
+        raise
+    req = SERVER.request
+    return req[req.index('</LOCALCLASSPATH>') + len('</LOCALCLASSPATH>'):req.rindex('</METHODCALL>')]
+
+
+class InvokeParamCodec(Codec):
+    """InvokeMethod(Params=[CIMParameter]) -> request PARAMVALUE -> echoed as output parameter -> outparams"""
+    @staticmethod
+    def enc(x):
+        return request_paramvalues(x, params=[as_cimparameter(x)])
+    reenc = enc
+
+    @staticmethod
+    def parse(xml):
+        _, out = SERVER.invoke(False, reply_params=xml)
+        (name, value), = out.items()
+        m = re.match(r'<PARAMVALUE NAME="[^"]*"(?: PARAMTYPE="([^"]*)")?(?: EmbeddedObject="([^"]*)")?>', xml)
+        return ParamHolder(name, m.group(1), value, m.group(2))
+
+    @staticmethod
+    def view(v, x):
+        return v.pval(x)
+
+
+class InvokeKwCodec(InvokeParamCodec):
+    """InvokeMethod(P=value): CIM type and embedded-object kind inferred from the value"""
+    @staticmethod
+    def enc(x):
+        return request_paramvalues(x, **{x.name: x.value})
+    reenc = enc
+
+
+class InvokeReplyCodec(InvokeParamCodec):
+    """CIMParameter.tocimxml(as_value=True) as the output parameter of a method response -> outparams"""
+    @staticmethod
+    def enc(x):
+        return ParamValueCodec.enc(as_cimparameter(x))
+    reenc = enc
+
+
 def ref_for(codec, xml, x0):
     e = ET.fromstring(xml.encode('utf-8'))
     if issubclass(codec, ValueCodec):
@@ -650,22 +779,30 @@ def tb_functions(exc):
     return [f.name for f in traceback.extract_tb(exc.__traceback__)]
 
 
+def render_input(x0):
+    if isinstance(x0, (TypedValue, ParamHolder)):
+        return repr((x0.type, x0.value))[:600]
+    return repr(x0)[:600]
+
+
 def check(key, x0, codec=Codec, expected=None, enc=None, **desc):
-    """one case: x0 is the hand-built object"""
+    """one case: x0 is the hand-built object; returns the object the real parser read back (None: no such object)"""
     R.case(key)
-    desc = dict(case=repr(key)[:200], input=repr(x0)[:600] if not isinstance(x0, TypedValue)
-                else repr((x0.type, x0.value))[:600], **desc)
+    desc = dict(case=Lazy(lambda: repr(key)[:200]), input=Lazy(lambda: render_input(x0)), **desc)
     if _cim_xml._CDATA_ESCAPING:
         desc['cdata_escaping'] = True
     if expected is None:
         expected = codec.view(EXPECT, x0)
     try:
         xml0 = (enc or codec.enc)(x0)
+    except KnownDefect as e:
+        violation(e.vid, what=e.what, **desc)
+        return None
     except Exception as e:  # pylint: disable=broad-except
         if isinstance(e, (ValueError, TypeError)) and embedded_with_path(x0):
-            return      # refusing what DSP0201 cannot represent is "not accepted for transmission"
+            return None     # refusing what DSP0201 cannot represent is "not accepted for transmission"
         violation('encode-raises-' + type(e).__name__, error=str(e)[:200], **desc)
-        return
+        return None
     desc['xml'] = xml0[:600]
     # 1. independent decoding of the wire form
     wire_slots = set()
@@ -701,7 +838,7 @@ def check(key, x0, codec=Codec, expected=None, enc=None, **desc):
             violation(KNOWN_SCOPE_ANY, error=str(e)[:150], **desc)
         else:
             violation('parse-raises-' + type(e).__name__, error=str(e)[:300], raised_in=fns[-1], **desc)
-        return
+        return None
     got = codec.view(GOT, x1)
     if got != expected:
         d = []
@@ -728,7 +865,7 @@ def check(key, x0, codec=Codec, expected=None, enc=None, **desc):
         xml2 = codec.reenc(x2)
     except Exception as e:  # pylint: disable=broad-except
         violation('second-roundtrip-raises-' + type(e).__name__, error=str(e)[:300], **desc)
-        return
+        return x1
     v1, v2 = codec.view(EXACT, x1), codec.view(EXACT, x2)
     if v1 != v2:
         d = []
@@ -737,6 +874,7 @@ def check(key, x0, codec=Codec, expected=None, enc=None, **desc):
                     **desc)
     if xml1 != xml2:
         violation('second-roundtrip-xml-not-byte-identical', xml1=xml1[:400], xml2=xml2[:400], **desc)
+    return x1
 
 
 class cdata:
